@@ -31,6 +31,8 @@ def run(ctx):
             cmds.append(c["cmd"]); expect.append(c["obs"]); meta.append(c)
         for viol in r["violations"]:
             R.violation(viol["signature"], viol["what"], viol["replay"])
+        if r.get("unconfirmed"):
+            R.extra.setdefault("unconfirmed_violations", []).extend({"version": v, **x} for x in r["unconfirmed"][:5])
     # the model's table of gated links must be the one the harness covered
     for v in T:
         cmds.append(f"witness {v['hundredths']}"); expect.append("links= effects=- conditions=-"); meta.append({"key": f"{v['version']}:witness"})
